@@ -203,11 +203,25 @@ var Faults = []Fault{
 		}
 		f := it.Fields[r.Intn(len(it.Fields))]
 		nf := *f
+		dups := []*m.FieldDef{&nf}
+		if len(it.Fields) >= 2 && r.Chance(1, 3) {
+			// two different names, each defined twice: which one is reported must not depend on anything but the text
+			for _, g := range it.Fields {
+				if g.Name != f.Name {
+					ng := *g
+					dups = append(dups, &ng)
+					break
+				}
+			}
+			if r.Bool() {
+				dups[0], dups[1] = dups[1], dups[0]
+			}
+		}
 		if r.Bool() {
 			// through an extension
-			return append(items, &m.Item{Kind: it.Kind, Extend: true, Name: it.Name, Fields: []*m.FieldDef{&nf}}), []string{it.Name}, true
+			return append(items, &m.Item{Kind: it.Kind, Extend: true, Name: it.Name, Fields: dups}), []string{it.Name}, true
 		}
-		it.Fields = append(it.Fields, &nf)
+		it.Fields = append(it.Fields, dups...)
 		return items, []string{it.Name}, true
 	}},
 	{"undefined-type(output-field)", func(r *core.Rand, items []*m.Item) ([]*m.Item, []string, bool) {
@@ -533,6 +547,10 @@ var Faults = []Fault{
 				return nil, nil, false
 			}
 			it.Members = []string{ob.Name}
+		}
+		if k != "scalar" && r.Chance(1, 3) {
+			// the reserved name comes into being through an extension only (no base definition anywhere)
+			it.Extend = true
 		}
 		return append(items, it), []string{"__Mine"}, true
 	}},
